@@ -87,6 +87,15 @@ def run(facts, R):
         R.check("arg1.peer_id" in a, "guard-owns-disconnect", dp.path, "hooks get this connection's peer id", "hook called with %s" % a, t.get("span"))
     chain = [t["callee"]["name"] for i, t in dp.calls() if t["callee"].get("trait") == "std::iter::Iterator"]
     R.check(chain == ["next"], "guard-owns-disconnect", dp.path, "no hook skipped", "iterator adapters in Drop: %s" % chain, dp.span)
+    # every invocation of a disconnect-hook-typed callable (dyn Fn(PeerId)) in the crate is the one in Drop
+    n_inv = 0
+    for b in facts.bodies.values():
+        for i, t in b.calls():
+            if t["callee"]["name"] in ("call", "call_mut", "call_once") and (t["callee"].get("self_ty") or "").startswith("dyn std::ops::Fn(peer::PeerId)"):
+                n_inv += 1
+                R.check(b is dp, "guard-owns-disconnect", b.path, "disconnect hooks invoked only by the guard's Drop",
+                        "%s invokes a disconnect hook directly: hooks can fire without / in addition to the guard" % b.path, t.get("span"), "in Drop")
+    R.floor("guard-owns-disconnect", n_inv, 1, "disconnect hook invocations")
     # who reads `hooks` of a guard / on_disconnect of the config
     for b in facts.bodies.values():
         if not b.path.startswith(WS) and not b.path.startswith("<" + WS):
